@@ -114,7 +114,7 @@ class PermutingPool:
 DEFAULTS = dict(n_dim=2, n_particles=8, ess_ratio=2.0, volume_variation=None, evaluation="scalar", periodic=None,
                 reflective=None, pool=None, clustering=True, normalize=True, cluster_every=1, split_threshold=1.0,
                 n_max_clusters=None, sample="tpcn", n_steps=None, n_max_steps=None, resample="mult",
-                random_state=None, target="gauss", support=None, shift=0.0, quant=None, slow=None, nan_pocket=None)
+                random_state=None, target="gauss", support=None, shift=0.0, quant=None, slow=None, nan_pocket=None, via=None)
 
 
 def build_sampler(conf: dict, rec: psrun.Recorder | None, out_dir=None):
@@ -122,7 +122,8 @@ def build_sampler(conf: dict, rec: psrun.Recorder | None, out_dir=None):
 
     c = dict(DEFAULTS)
     c.update(conf)
-    tgt = Target(c["n_dim"], c["target"], shift=c["shift"], support=c["support"], quant=c["quant"], slow=c["slow"], nan_pocket=c["nan_pocket"])
+    via = c.get("via")   # None | "kwargs" | "args": the constant added to the log-likelihood travels through log_likelihood_kwargs / _args
+    tgt = Target(c["n_dim"], c["target"], shift=(0.0 if via else c["shift"]), support=c["support"], quant=c["quant"], slow=c["slow"], nan_pocket=c["nan_pocket"])
     ev = c["evaluation"]
     if ev == "blobs_nodtype":   # the likelihood returns (logl, blob) but blobs_dtype is not configured
         ll, vec, bd = tgt.logl_blob, False, None
@@ -134,6 +135,24 @@ def build_sampler(conf: dict, rec: psrun.Recorder | None, out_dir=None):
         ll, vec, bd = tgt.logl_blob, False, "float"
     else:
         ll, vec, bd = tgt.logl_scalar, False, None
+    extra = {}
+    if via:
+        base_ll = ll
+        wrong = float(c["shift"]) + 7.0     # what the function would add if the user's extra argument got lost on the way
+
+        def _plus(r, offset):
+            if isinstance(r, (tuple, list)):
+                return (r[0] + offset,) + tuple(r[1:])
+            return r + offset
+
+        if via == "kwargs":
+            def ll(x, offset=wrong):  # noqa: E306
+                return _plus(base_ll(x), offset)
+            extra = dict(log_likelihood_kwargs={"offset": float(c["shift"])})
+        else:
+            def ll(x, offset, unused=None):  # noqa: E306
+                return _plus(base_ll(x), offset)
+            extra = dict(log_likelihood_args=[float(c["shift"])])
     pt = tgt.prior_transform
     if rec is not None:
         pt = rec.wrap_prior(pt)
@@ -147,7 +166,7 @@ def build_sampler(conf: dict, rec: psrun.Recorder | None, out_dir=None):
         reflective=c["reflective"], pool=pool, clustering=c["clustering"], normalize=c["normalize"],
         cluster_every=c["cluster_every"], split_threshold=c["split_threshold"], n_max_clusters=c["n_max_clusters"],
         sample=c["sample"], n_steps=c["n_steps"], n_max_steps=c["n_max_steps"], resample=c["resample"],
-        output_dir=out_dir, output_label="ps", random_state=c["random_state"],
+        output_dir=out_dir, output_label="ps", random_state=c["random_state"], **extra,
     )
     return s, c
 
@@ -168,6 +187,7 @@ def record_run(conf: dict, n_total=32, seed=0, label="", posterior_flags=None, s
     if label:
         rec.label = label
     with psrun.hooks_on(rec):
+        rec._entry_mark = rec.evals
         try:
             sampler.run(n_total=n_total, progress=False, save_every=save_every, resume_state_path=resume)
             ok = True
